@@ -47,12 +47,13 @@ def vmPrims (K : Codec C) : Prims where
   parseSig := K.parseSig
   verify := C.verify
 
-/-- the engine run for input `i` spending an output of `amt`: flags as the wallet sets them below the
-    MASSIP-2 warm-up height (StandardVerifyFlags) -/
-def vmCtx (K : Codec C) (tx : STx) (i : Nat) (seq : Nat) (amt : Nat) : Ctx (vmPrims K) where
+/-- the engine run for input `i` spending an output of `amt`: flags as the wallet sets them – StandardVerifyFlags,
+    plus ScriptMASSip2 (`ip2`) when the previous transaction sits at a height ≥ MASSIP0002WarmUpHeight
+    (`forks.EnforceMASSIP0002WarmUp(prevHeight)` in signWitnessTx) -/
+def vmCtx (K : Codec C) (tx : STx) (i : Nat) (seq : Nat) (amt : Nat) (ip2 : Bool := false) : Ctx (vmPrims K) where
   seq := seq
   lockTime := tx.lock
-  ip2 := false
+  ip2 := ip2
   discourageNops := true
   sighash := fun code ht => K.sighash tx i amt code ht
 
@@ -61,7 +62,15 @@ def kindOf : Class → Option Kind
   | .std => some .std
   | .stk f => some (.stk f)
   | .bind => some (.bind (List.replicate 20 0))
+  | .bind2 => some (.bind (List.replicate 20 0))
   | .other => none
+
+/-- ScriptMASSip2 as signWitnessTx sets it. The flag is consulted by the engine for binding outputs only
+    (`verifyWitnessProgram`), so the class of the previous output carries it: `bind2` = binding output of a previous
+    transaction at a height ≥ the warm-up height. -/
+def ip2Of : Class → Bool
+  | .bind2 => true
+  | _ => false
 
 /-- the witness bytes of a model witness: [push(signature ‖ hash type), redeem script] -/
 def witnessBytes (K : Codec C) (w : Witness C) : List Bytes :=
@@ -78,7 +87,7 @@ theorem isOk_iff (x : R Unit) : isOk x = true ↔ x = .ok () := by
 def vmOk (K : Codec C) (po : PrevOut Bytes) (tx : STx) (i : Nat) (w : Option (Witness C)) : Bool :=
   match w, kindOf po.cls, tx.ins[i]? with
   | some w, some k, some inp =>
-    isOk (Model.ScriptVM.verify (vmPrims K) (vmCtx K tx i inp.seq po.amt) (pkScriptOf po.addr k) (witnessBytes K w))
+    isOk (Model.ScriptVM.verify (vmPrims K) (vmCtx K tx i inp.seq po.amt (ip2Of po.cls)) (pkScriptOf po.addr k) (witnessBytes K w))
   | _, _, _ => false
 
 theorem encPK_len (K : Codec C) (pk : C.PK) : (K.encPK pk).length = 33 := by
@@ -122,6 +131,21 @@ theorem seqRule_of_seqOk (f s : Nat) (h : seqOk (.stk f) s = true) : SeqRule s (
   · have : (2 : Nat) ^ 63 = 9223372036854775808 := by decide
     omega
 
+/-- the MASSIP-2 binding sequence rule of MW.Model.Sign implies the one the VM enforces under ScriptMASSip2 -/
+theorem seqRule_of_seqOk_bind2 (s : Nat) (h : seqOk .bind2 s = true) : SeqRule s Gen.Vm.bindingLockedPeriod := by
+  simp only [seqOk, Bool.and_eq_true, decide_eq_true_eq] at h
+  obtain ⟨⟨h1, h2⟩, h3⟩ := h
+  have h1' : s < 9223372036854775808 := by simpa using h1
+  have h2' : s / 274877906944 % 2 = 0 := by simpa using h2
+  have h3' : 4294967294 ≤ s % 4294967296 := by simpa using h3
+  have m1 : seqMasked s = s % 4294967296 := by
+    simp [seqMasked, Gen.Vm.sequenceLockTimeMask, Gen.Vm.sequenceLockTimeIsSeconds, h2']
+  have m2 : seqMasked Gen.Vm.bindingLockedPeriod = 4294967294 := by decide
+  refine ⟨?_, ?_, ?_⟩
+  · simp [Gen.Vm.sequenceLockTimeDisabled]; omega
+  · rw [m1, m2]; simp [Gen.Vm.sequenceLockTimeIsSeconds]; omega
+  · rw [m1, m2]; exact h3'
+
 /-- THE LAW `p2wsh`, proved of the VM model: a witness made of a valid signature by the key the script hash commits
     to, with the sequence rule of the class met, is accepted by NewEngine + Execute -/
 theorem vm_law (K : Codec C) (po : PrevOut Bytes) (tx : STx) (i : Nat) (w : Witness C) (seq : Nat)
@@ -143,8 +167,9 @@ theorem vm_law (K : Codec C) (po : PrevOut Bytes) (tx : STx) (i : Nat) (w : Witn
   have hlast : ((K.encSig w.sig ++ [UInt8.ofNat (flagByte w.flag)]).getLast?.getD 0).toNat = flagByte w.flag := by
     simp [UInt8.toNat_ofNat']; omega
   have hdrop : (K.encSig w.sig ++ [UInt8.ofNat (flagByte w.flag)]).dropLast = K.encSig w.sig := by simp
-  have hsig : SigValid (vmPrims K) (vmCtx K tx i inp.seq po.amt) (K.encPK w.pk)
+  have hsig : ∀ b, SigValid (vmPrims K) (vmCtx K tx i inp.seq po.amt b) (K.encPK w.pk)
       (K.encSig w.sig ++ [UInt8.ofNat (flagByte w.flag)]) := by
+    intro b
     refine ⟨by simp, ?_, ?_, K.encPK_compressed _, w.sig, w.pk, ?_, K.parsePK_enc _, ?_⟩
     · rw [hlast]; exact checkHashType_flag _
     · rw [hdrop]; exact K.encSig_strict _
@@ -156,19 +181,26 @@ theorem vm_law (K : Codec C) (po : PrevOut Bytes) (tx : STx) (i : Nat) (w : Witn
     have hk : (Kind.std).wf := trivial
     simp only [vmOk, hcls, kindOf, hinp, witnessBytes, isOk_iff]
     rw [verify_template _ _ _ _ _ _ hl32 hk hpk hfull1 hfull2, verdict_ok_iff]
-    exact ⟨hh, trivial, hsig⟩
+    exact ⟨hh, trivial, hsig _⟩
   | stk f =>
     rw [hcls, ← hseq] at hq
     obtain ⟨hrule, hwf⟩ := seqRule_of_seqOk f inp.seq hq
     have hk : (Kind.stk f).wf := hwf
     simp only [vmOk, hcls, kindOf, hinp, witnessBytes, isOk_iff]
     rw [verify_template _ _ _ _ _ _ hl32 hk hpk hfull1 hfull2, verdict_ok_iff]
-    exact ⟨hh, hrule, hsig⟩
+    exact ⟨hh, hrule, hsig _⟩
   | bind =>
     have hk : (Kind.bind (List.replicate 20 0)).wf := Or.inl (by simp)
     simp only [vmOk, hcls, kindOf, hinp, witnessBytes, isOk_iff]
     rw [verify_template _ _ _ _ _ _ hl32 hk hpk hfull1 hfull2, verdict_ok_iff]
-    exact ⟨hh, fun h => by simp [vmCtx] at h, hsig⟩
+    exact ⟨hh, fun h => by simp [vmCtx, ip2Of] at h, hsig _⟩
+  | bind2 =>
+    rw [hcls, ← hseq] at hq
+    have hrule := seqRule_of_seqOk_bind2 inp.seq hq
+    have hk : (Kind.bind (List.replicate 20 0)).wf := Or.inl (by simp)
+    simp only [vmOk, hcls, kindOf, hinp, witnessBytes, isOk_iff]
+    rw [verify_template _ _ _ _ _ _ hl32 hk hpk hfull1 hfull2, verdict_ok_iff]
+    exact ⟨hh, fun _ => hrule, hsig _⟩
 
 /-- the script VM as an `Engine`: the law is a theorem, not an assumption -/
 def vmEngine (K : Codec C) : Engine C Bytes where
